@@ -145,15 +145,26 @@ Definition str_FWfull : bytes := [59;70;87;58;32].     (* ";FW: " *)
 Definition str_PQ : bytes := [59;80;81].               (* ";PQ" *)
 Definition str_PM : bytes := [59;80;77].               (* ";PM" *)
 
-(* parseSID: text between the last '-' and the final ']' ; None = "Bad SID line" *)
-Definition parse_sid (line : bytes) : option bytes :=
-  match rev' line with
-  | 93 :: back =>
-      match split_at 45 back with
+(* parseSID: a regular expression (open bracket, anything, dash, captured anything, close bracket;
+   leftmost match, greedy, the dot does not match LF): for the
+   first open bracket whose LF-free continuation contains a dash followed later by a close bracket,
+   the text between the last such dash and the last close bracket of that continuation, upper-cased; None = "Bad SID line" *)
+Fixpoint take_until_lf (s : bytes) : bytes :=
+  match s with [] => [] | x :: r => if x =? 10 then [] else x :: take_until_lf r end.
+Definition sid_at (rest : bytes) : option bytes :=
+  match split_at 93 (rev' (take_until_lf rest)) with
+  | (_, Some before_rev) =>
+      match split_at 45 before_rev with
       | (code_rev, Some _) => Some (upper (rev' code_rev))
       | (_, None) => None
       end
-  | _ => None
+  | (_, None) => None
+  end.
+Fixpoint parse_sid (line : bytes) : option bytes :=
+  match line with
+  | [] => None
+  | x :: r => if x =? 91 then match sid_at r with Some c => Some c | None => parse_sid r end
+              else parse_sid r
   end.
 
 Record hsdata := { hd_sid : bytes; hd_have_sid : bool; hd_challenge : bytes }.
